@@ -143,6 +143,28 @@ pub open spec fn end_players(p: Seq<i8>, n: int) -> Seq<game::PlayerEnd> decreas
 		decreases 4 - n + (if err__ is None { 1int } else { 0int }),
 //@end
 
+// ---- Game Start block ----
+// player_bytes::<N, M>: M consecutive N-byte records (trusted here: const-generic nested arrays + iter_mut().try_for_each;
+// its contract is checked against the real function by the Kani harness k_player_bytes)
+#[verifier::external_body]
+pub fn player_bytes<const N: usize, const M: usize>(r: &mut &[u8]) -> (res: Result<[[u8; N]; M]>)
+	ensures
+		(*old(r))@.len() >= N * M ==> res is Ok && (*final(r))@ == skip((*old(r))@, (N * M) as int)
+			&& forall|i: int, j: int| 0 <= i < M && 0 <= j < N ==> #[trigger] res->Ok_0@[i]@[j] == (*old(r))@[i * N + j],
+		(*old(r))@.len() < N * M ==> res is Err,
+{ unimplemented!() }
+
+// player(): per-port record parser (its own contract: see below / startend_player); here a stub so that game_start's
+// contract can say WHICH slices of the block each port's player is built from
+pub uninterp spec fn player_spec(port: Port, v0: Seq<u8>, is_teams: bool, v1_0: Option<Seq<u8>>, v1_3: Option<Seq<u8>>, name: Option<Seq<u8>>, code: Option<Seq<u8>>, v3_11: Option<Seq<u8>>) -> Option<Option<Player>>;
+pub open spec fn opt_arr<const K: usize>(o: Option<[u8; K]>) -> Option<Seq<u8>> { match o { Some(a) => Some(a@), None => None } }
+#[verifier::external_body]
+fn player(port: Port, v0: &[u8; 36], is_teams: bool, v1_0: Option<[u8; 8]>, v1_3: Option<[u8; 16]>, v3_9_name: Option<[u8; 31]>, v3_9_code: Option<[u8; 10]>, v3_11: Option<[u8; 29]>) -> (res: Result<Option<Player>>)
+	ensures
+		res is Ok == (player_spec(port, v0@, is_teams, opt_arr(v1_0), opt_arr(v1_3), opt_arr(v3_9_name), opt_arr(v3_9_code), opt_arr(v3_11)) is Some),
+		res is Ok ==> res->Ok_0 == player_spec(port, v0@, is_teams, opt_arr(v1_0), opt_arr(v1_3), opt_arr(v3_9_name), opt_arr(v3_9_code), opt_arr(v3_11))->Some_0,
+{ unimplemented!() }
+
 } // verus!
 fn main() {}
 '''
